@@ -163,6 +163,10 @@ impl Server {
         )?;
         grammar_config.update_cfg(cfg);
         let grammar_config = grammar_config.clone();
+        // The synchronous checks have passed. Publish the all-clear now, before the background
+        // analysis is started: published afterwards it could overwrite the analysis' findings.
+        Self::notify_analysis_ok(connection.clone(), uri.clone(), version)
+            .map_err(|e| anyhow::anyhow!("{e}"))?;
         #[cfg(parol_verif)]
         let grammar_config = crate::verif_driver::Gated::new(grammar_config, version);
         thread::spawn(move || match grammar_config.grammar_type {
@@ -225,12 +229,8 @@ impl Server {
             connection.clone(),
         ) {
             Ok(()) => {
+                // The all-clear has been published by `check_grammar`.
                 eprintln!("handle_open_document: ok");
-                Self::notify_analysis_ok(
-                    connection,
-                    params.text_document.uri,
-                    params.text_document.version,
-                )?;
             }
             Err(err) => {
                 eprintln!("handle_open_document: error");
@@ -264,12 +264,8 @@ impl Server {
             connection.clone(),
         ) {
             Ok(()) => {
+                // The all-clear has been published by `check_grammar`.
                 eprintln!("handle_change_document: ok");
-                Self::notify_analysis_ok(
-                    connection,
-                    params.text_document.uri,
-                    params.text_document.version,
-                )?;
             }
             Err(err) => {
                 eprintln!("handle_change_document: error");
